@@ -2,6 +2,7 @@ CONSTANTS
  Scenario = 3
  InitTtl = "zero"
  Variant = "code"
+ GetdelBlocking = TRUE
  OwnerSwitch = "sync"
  Ops <- MCOps
  Kind <- MCKind
